@@ -8,7 +8,9 @@ TlsPool == << EncRecordRaw(22, 771, <<14, 0, 0, 0>>), EncRecordRaw(20, 771, <<1>
               EncRecordRaw(23, 771, <<1, 2, 3>>), EncRecordRaw(24, 771, <<1, 0, 1, 9, 0, 0>>),
               EncRecordRaw(22, 771, <<0, 0, 0, 0, 20, 0, 0, 1, 7>>), EncRecordRaw(23, 771, <<>>),
               (* the record parser does not look at the version: any value is a record *)
-              EncRecordRaw(23, 512, <<4, 5>>), EncRecordRaw(22, 65277, <<14, 0, 0, 0>>), EncRecordRaw(21, 0, <<1, 0>>) >>
+              EncRecordRaw(23, 512, <<4, 5>>), EncRecordRaw(22, 65277, <<14, 0, 0, 0>>), EncRecordRaw(21, 0, <<1, 0>>),
+              (* valid messages followed by bytes that are not a message: the single-record parser returns the messages *)
+              EncRecordRaw(20, 771, <<1, 0>>), EncRecordRaw(21, 771, <<1, 0, 2>>), EncRecordRaw(22, 771, <<14, 0, 0, 0, 9>>) >>
 TlsTails == << <<>>, SubSeq(TlsPool[1], 1, 7), <<22, 3, 3>>, <<22, 3, 3, 65, 1>>, <<1, 2, 3>>,
                EncRecordRaw(22, 771, <<99, 0, 0, 0>>), EncRecordRaw(21, 771, <<>>), EncRecordRaw(7, 771, <<1>>) >>
 DtlsPool == << EncDtlsRecord(22, 65277, 0, <<0, 0, 1>>, EncDtlsHs(14, 0, 1, 0, 0, <<>>)),
